@@ -324,10 +324,15 @@ func main() {
 		"values at or above the tier limit are covered only through the boundary alphabet")
 
 	// ---- encoder/decoder over the full low range ----
-	limitBits := mc.Pick(r, 22, 32)
+	// quick: every value below 2^22; thorough: every value below 2^30 (the 1-, 2- and 4-byte classes
+	// completely) plus the first 2^26 values of the 8-byte class
+	limitBits := mc.Pick(r, 22, 30)
 	limit := uint64(1) << limitBits
 	const chunk = 1 << 16
 	nchunks := int(limit / chunk)
+	if r.Thorough() {
+		nchunks += (1 << 26) / chunk
+	}
 	r.Par(nchunks, func(ci int) {
 		if r.OutOfTime() {
 			r.NotExhaustive("budget hit in value sweep")
@@ -347,7 +352,7 @@ func main() {
 		}
 		r.Bulk(chunk, nd, "enc-dec-agree")
 	})
-	r.Set("values_below", limit)
+	r.Set("values_below", uint64(nchunks)*chunk)
 	r.Sample(map[string]any{"kind": "enc", "v": 16384, "ref": hex.EncodeToString(refEnc(16384))})
 
 	// ---- boundary values ----
